@@ -85,6 +85,8 @@ def run(ctx):
              "the top of the prefix stack", floor=5)
     run.rule("C11.R5", "a component is registered before it is parsed and "
              "parsed only if not registered", floor=2)
+    run.rule("C11.R7", "a table keyed by key-type-normalised names is not "
+             "handed verbatim to a derived type whose key type may differ")
     run.rule("C11.R6", "base schemas are parsed into the extending schema, "
              "references joined against the extending schema's URL",
              floor=2)
@@ -207,3 +209,87 @@ def run(ctx):
                "start_schema", SP + ".SchemaParser",
                "base parsed into the extending parser's schema; join, "
                "defragment, gate; key/datatype inheritance from bases")
+
+    _r7_rekeying(ctx)
+
+
+def _r7_rekeying(ctx):
+    """C11.R7: 'inheriting key type ... unless overridden'.  A table of a
+    section type whose keys are produced by the type's key type (found by
+    value origins: a key stored into it is the result of a call through the
+    `keytype` slot) is only valid under that key type.  deriveSectionType
+    hands such tables to a type whose key type may be another one (its
+    `keytype` parameter); a table it copies verbatim, without passing the keys
+    through the new key type, is reported.  (It re-derives the wildcard
+    defaults under the new key type, so the need is known to the code.)"""
+    run, m, P, F = ctx.run, ctx.model, ctx.program, ctx.flow
+    ST = INF + ".SectionType"
+    derive = m.fn(INF + ".SchemaType.deriveSectionType")
+    keyed = {}
+    for k in m.mro(ST):
+        c = m.classes.get(k)
+        if c is None:
+            continue
+        for fn in c.methods.values():
+            if not fn.params:
+                continue
+            selfn = fn.params[0]
+            for n in ast.walk(fn.node):
+                if isinstance(n, ast.Subscript) and isinstance(
+                        n.ctx, ast.Store) and isinstance(
+                            n.value, ast.Attribute) and isinstance(
+                                n.value.value, ast.Name) \
+                        and n.value.value.id == selfn \
+                        and not isinstance(n.slice, ast.Slice):
+                    for o in F.origins(fn, n.slice, depth=10):
+                        if o.kind == "call" and isinstance(
+                                o.node, ast.Call) and isinstance(
+                                    o.node.func, ast.Attribute) \
+                                and o.node.func.attr == "keytype":
+                            keyed.setdefault(n.value.attr, set()).add(
+                                "%s: %s" % (o.fi.qualname if o.fi else "?",
+                                            src(o.node)))
+    run.analysed["tables_keyed_by_the_key_type"] = {
+        k: sorted(v) for k, v in sorted(keyed.items())}
+    if not keyed:
+        raise AnalysisError("C11.R7: no table of %s is keyed by key-type "
+                            "output (anchor vanished?)" % ST)
+    copies = []
+    for n in ast.walk(derive.node):
+        if isinstance(n, ast.Call) and isinstance(n.func, ast.Attribute) \
+                and n.func.attr in ("update", "extend") and isinstance(
+                    n.func.value, ast.Attribute) and n.args and isinstance(
+                        n.args[0], ast.Attribute) \
+                and n.func.value.attr == n.args[0].attr:
+            copies.append((n.func.value.attr, n))
+    rekeyed = set()
+    for n in ast.walk(derive.node):
+        if isinstance(n, ast.Subscript) and isinstance(n.ctx, ast.Store) \
+                and isinstance(n.value, ast.Attribute) and any(
+                    isinstance(x, ast.Call) and isinstance(
+                        x.func, ast.Attribute) and x.func.attr == "keytype"
+                    for x in ast.walk(n.slice)):
+            rekeyed.add(n.value.attr)
+    n_ob = 0
+    for tbl, call in copies:
+        if tbl not in keyed:
+            continue
+        n_ob += 1
+        if tbl in rekeyed:
+            run.ok("C11.R7", derive.qualname, src(call),
+                   "the keys are re-derived through the new key type",
+                   loc=m.loc(derive, call))
+            continue
+        run.fail("C11.R7", derive.qualname, src(call),
+                 "%s is keyed by names normalised under the base type's key "
+                 "type (%s) and is copied verbatim into a type whose key type "
+                 "may differ (parameter `keytype`): under "
+                 "extends + keytype the base's key names keep their old "
+                 "normal form, the written-out expansion normalises them "
+                 "anew" % (tbl, "; ".join(sorted(keyed[tbl]))[:160]),
+                 loc=m.loc(derive, call),
+                 witness={"table": tbl, "keys_from": sorted(keyed[tbl])})
+    if not n_ob:
+        raise AnalysisError("C11.R7: deriveSectionType copies none of the "
+                            "tables keyed by the key type (%s)"
+                            % sorted(keyed))
